@@ -1,8 +1,10 @@
 /-
-  C17 helper lemmas (draws inside the interval, splice indexing, cut points, trial length).
+  C17 helper lemmas: draws inside the interval, splice indexing, cut points, trial indexing, and the generic
+  facts about the loops of the extracted code (`forRange`).
 -/
 import Vita.C17.Model
 namespace Vita.C17
+open Vita.C17.M
 
 /-- a draw lands inside the half-open interval, whatever the raw draw -/
 theorem pick_in (r : Iv) (u : Nat) (h : r.lo < r.hi) : r.lo ≤ pick r u ∧ pick r u < r.hi := by
@@ -18,6 +20,14 @@ theorem pick_onto (r : Iv) (v : Int) (h1 : r.lo ≤ v) (h2 : v < r.hi) : ∃ u, 
   have : ((v - r.lo).toNat : Int) = v - r.lo := Int.toNat_of_nonneg (by omega)
   rw [this, Int.emod_eq_of_lt (by omega) (by omega)]
   omega
+
+/-- a gene drawn for a category lies in one of the category's intervals -/
+theorem pickS_in (s : Slot) (k u : Nat) (hne : s ≠ []) (hd : ∀ r ∈ s, r.lo < r.hi) : InSlot s (pickS s k u) := by
+  have hl : 0 < s.length := List.length_pos_iff.mpr hne
+  have hk : k % s.length < s.length := Nat.mod_lt _ hl
+  unfold pickS
+  rw [List.getElem?_eq_getElem hk]
+  exact ⟨s[k % s.length], List.getElem_mem hk, pick_in _ _ (hd _ (List.getElem_mem hk))⟩
 
 theorem splice_length (l r : List Int) (c1 c2 : Nat) : (splice l r c1 c2).length = r.length := by
   simp [splice]
@@ -62,5 +72,239 @@ theorem trial_length {F} (A : Arith F) (f : F) (flip : Nat → Bool) (t a b c : 
         match as, bs, cs, ha, hb, hc with
         | _ :: _, _ :: _, _ :: _, _, _, _ => simp [trial, this]
 
+/-- the trial vector position by position -/
+theorem trial_get {F} (A : Arith F) (f : F) (flip : Nat → Bool) (t a b c : List F)
+    (ha : a.length = t.length) (hb : b.length = t.length) (hc : c.length = t.length) :
+    ∀ i (hi : i < t.length),
+      (trial A f flip t a b c)[i]? =
+        some (if i = t.length - 1 ∨ flip i = true
+              then mutant A f (c[i]'(by omega)) (a[i]'(by omega)) (b[i]'(by omega)) else t[i]) := by
+  induction t generalizing a b c flip with
+  | nil => intro i hi; simp at hi
+  | cons x ts ih =>
+    match a, b, c, ha, hb, hc with
+    | a :: as, b :: bs, c :: cs, ha, hb, hc =>
+      cases ts with
+      | nil =>
+        have : as = [] := List.eq_nil_of_length_eq_zero (by simpa using ha)
+        have : bs = [] := List.eq_nil_of_length_eq_zero (by simpa using hb)
+        have : cs = [] := List.eq_nil_of_length_eq_zero (by simpa using hc)
+        subst_vars
+        intro i hi
+        have : i = 0 := by simpa using hi
+        subst this
+        simp [trial]
+      | cons y ys =>
+        match as, bs, cs, ha, hb, hc with
+        | a2 :: as, b2 :: bs, c2 :: cs, ha, hb, hc =>
+          intro i hi
+          cases i with
+          | zero =>
+            simp only [trial, List.getElem?_cons_zero, List.getElem_cons_zero, List.length_cons]
+            have : ¬ (0 = ys.length + 1 + 1 - 1) := by omega
+            simp only [this, false_or]
+          | succ j =>
+            have := ih (fun i => flip (i + 1)) (a2 :: as) (b2 :: bs) (c2 :: cs)
+              (by simpa using ha) (by simpa using hb) (by simpa using hc) j (by simpa using hi)
+            simp only [trial, List.getElem?_cons_succ, List.getElem_cons_succ, List.length_cons] at this ⊢
+            rw [this]
+            have e : (j + 1 = ys.length + 1 + 1 - 1) = (j = ys.length + 1 - 1) := by
+              apply propext; omega
+            simp only [e]
+
+/-! ## loops of the extracted code -/
+
+theorem foldl_congr_mem {α β} (f g : β → α → β) (l : List α) (b : β)
+    (h : ∀ b, ∀ a ∈ l, f b a = g b a) : l.foldl f b = l.foldl g b := by
+  induction l generalizing b with
+  | nil => rfl
+  | cons x xs ih =>
+    simp only [List.foldl_cons]
+    rw [h b x (by simp)]
+    exact ih _ (fun b a ha => h b a (by simp [ha]))
+
+theorem forRange_congr {σ} (lo hi : Int) (body body' : Int → σ → σ) (s : σ)
+    (h : ∀ i : Nat, lo.toNat ≤ i → i < hi.toNat → ∀ st, body i st = body' i st) :
+    forRange lo hi body s = forRange lo hi body' s := by
+  unfold forRange
+  apply foldl_congr_mem
+  intro st i hi
+  have := List.mem_range'_1.mp hi
+  exact h i this.1 (by omega) st
+
+theorem forRange_empty {σ} (lo hi : Int) (body : Int → σ → σ) (s : σ) (h : hi.toNat ≤ lo.toNat) :
+    forRange lo hi body s = s := by
+  unfold forRange
+  have : hi.toNat - lo.toNat = 0 := by omega
+  simp [this]
+
+/-- a loop step that rewrites position `i` from its current value only, counting the rewrites -/
+def pointStep {α} [Inhabited α] (f : Nat → α → Option α) (i : Int) (st : List α × Nat) : List α × Nat :=
+  match f i.toNat (getI st.1 i) with
+  | some v => (setI st.1 i v, st.2 + 1)
+  | none => st
+
+/-- the positions of `[lo, lo+n)` at which the step rewrites -/
+def hits {α} [Inhabited α] (f : Nat → α → Option α) (l : List α) (lo n : Nat) : Nat :=
+  ((List.range' lo n).filter fun j => (f j (l.getD j default)).isSome).length
+
+theorem hits_succ {α} [Inhabited α] (f : Nat → α → Option α) (l : List α) (lo n : Nat) :
+    hits f l lo (n + 1) = hits f l lo n + (if (f (lo + n) (l.getD (lo + n) default)).isSome then 1 else 0) := by
+  unfold hits
+  rw [List.range'_concat, List.filter_append, List.length_append]
+  simp only [Nat.one_mul, List.filter_cons, List.filter_nil]
+  split <;> simp
+
+private theorem foldl_point {α} [Inhabited α] (f : Nat → α → Option α) (lo : Nat) (l : List α) (c0 : Nat) :
+    ∀ n, lo + n ≤ l.length →
+      (List.range' lo n).foldl (fun st (i : Nat) => pointStep f (i : Int) st) (l, c0) =
+        (l.mapIdx (fun j x => if lo ≤ j ∧ j < lo + n then (f j x).getD x else x), c0 + hits f l lo n) := by
+  intro n
+  induction n with
+  | zero =>
+    intro _
+    have : l.mapIdx (fun j x => if lo ≤ j ∧ j < lo + 0 then (f j x).getD x else x) = l := by
+      apply List.ext_getElem?; intro i
+      simp only [List.getElem?_mapIdx]
+      cases l[i]? <;> simp
+      intro h1 h2; omega
+    simp only [Nat.add_zero] at this
+    simp [this, hits]
+  | succ n ih =>
+    intro hn
+    rw [List.range'_concat, List.foldl_append, ih (by omega)]
+    simp only [Nat.one_mul, List.foldl_cons, List.foldl_nil]
+    have hk : lo + n < l.length := by omega
+    have hget : getI (l.mapIdx (fun j x => if lo ≤ j ∧ j < lo + n then (f j x).getD x else x))
+        ((lo + n : Nat) : Int) = l[lo + n] := by
+      unfold getI
+      have : (0 : Int) ≤ ((lo + n : Nat) : Int) := Int.natCast_nonneg _
+      rw [if_pos this, Int.toNat_natCast]
+      rw [List.getD_eq_getElem?_getD, List.getElem?_mapIdx, List.getElem?_eq_getElem hk]
+      have : ¬ (lo ≤ lo + n ∧ lo + n < lo + n) := by omega
+      simp [this]
+    have hgd : l.getD (lo + n) default = l[lo + n] := by
+      rw [List.getD_eq_getElem?_getD, List.getElem?_eq_getElem hk]; rfl
+    rw [hits_succ, hgd]
+    unfold pointStep
+    simp only [hget, Int.toNat_natCast]
+    cases hf : f (lo + n) l[lo + n] with
+    | none =>
+      simp only [Option.isSome_none, Bool.false_eq_true, if_false, Nat.add_zero]
+      congr 1
+      apply List.ext_getElem?; intro i
+      simp only [List.getElem?_mapIdx]
+      by_cases hi : i < l.length
+      · simp only [List.getElem?_eq_getElem hi, Option.map_some]
+        by_cases he : i = lo + n
+        · subst he
+          have h1 : ¬ (lo ≤ lo + n ∧ lo + n < lo + n) := by omega
+          have h2 : (lo ≤ lo + n ∧ lo + n < lo + (n + 1)) := by omega
+          simp [h1, h2, hf]
+        · have : (lo ≤ i ∧ i < lo + n) ↔ (lo ≤ i ∧ i < lo + (n + 1)) := by omega
+          simp only [this]
+      · simp [List.getElem?_eq_none (Nat.le_of_not_lt hi)]
+    | some v =>
+      simp only [Option.isSome_some, if_true]
+      refine Prod.ext ?_ (by simp; omega)
+      simp only
+      unfold setI
+      have : (0 : Int) ≤ ((lo + n : Nat) : Int) := Int.natCast_nonneg _
+      rw [if_pos this, Int.toNat_natCast]
+      apply List.ext_getElem?; intro i
+      rw [List.getElem?_set]
+      simp only [List.getElem?_mapIdx, List.length_mapIdx]
+      by_cases he : lo + n = i
+      · subst he
+        have h2 : (lo ≤ lo + n ∧ lo + n < lo + (n + 1)) := by omega
+        simp [hk, h2, hf, List.getElem?_eq_getElem hk]
+      · simp only [he, if_false]
+        by_cases hi : i < l.length
+        · simp only [List.getElem?_eq_getElem hi, Option.map_some]
+          have : (lo ≤ i ∧ i < lo + n) ↔ (lo ≤ i ∧ i < lo + (n + 1)) := by omega
+          simp only [this]
+        · simp [List.getElem?_eq_none (Nat.le_of_not_lt hi)]
+
+/-- **the loops of the operators**: `for (i = lo; i < hi; ++i)` whose step rewrites position `i` from its
+    current value only computes the position-wise map on `[lo, hi)` and counts the rewrites -/
+theorem forRange_pointStep {α} [Inhabited α] (f : Nat → α → Option α) (lo hi : Nat) (l : List α) (c0 : Nat)
+    (h : lo ≤ hi) (hhi : hi ≤ l.length) :
+    forRange (lo : Int) (hi : Int) (pointStep f) (l, c0) =
+      (l.mapIdx (fun j x => if lo ≤ j ∧ j < hi then (f j x).getD x else x), c0 + hits f l lo (hi - lo)) := by
+  unfold forRange
+  simp only [Int.toNat_natCast]
+  have := foldl_point f lo l c0 (hi - lo) (by omega)
+  have e : lo + (hi - lo) = hi := by omega
+  rw [e] at this
+  exact this
+
+theorem forRange_fst {α σ} (lo hi : Int) (b : Int → α → α) (b2 : Int → α × σ → α × σ)
+    (h : ∀ i st, (b2 i st).1 = b i st.1) (s : α × σ) :
+    (forRange lo hi b2 s).1 = forRange lo hi b s.1 := by
+  unfold forRange
+  generalize List.range' lo.toNat (hi.toNat - lo.toNat) = rg
+  induction rg generalizing s with
+  | nil => rfl
+  | cons x xs ih =>
+    simp only [List.foldl_cons]
+    rw [ih, h]
+
+/-- plain-state version: `for (i = lo; i < hi; ++i) st[i] = f(i, st[i])` -/
+theorem forRange_pointSet {α} [Inhabited α] (f : Nat → α → α) (lo hi : Nat) (l : List α)
+    (h : lo ≤ hi) (hhi : hi ≤ l.length) :
+    forRange (lo : Int) (hi : Int) (fun i st => setI st i (f i.toNat (getI st i))) l =
+      l.mapIdx (fun j x => if lo ≤ j ∧ j < hi then f j x else x) := by
+  have h1 := forRange_fst (lo : Int) (hi : Int) (fun i st => setI st i (f i.toNat (getI st i)))
+    (pointStep (fun j x => some (f j x))) (by intro i st; simp [pointStep]) (l, 0)
+  rw [← h1, forRange_pointStep _ lo hi l 0 h hhi]
+  simp
+
+/-- `countDiff` of equal-length genomes counts the positions that differ -/
+theorem countDiff_eq_filter : ∀ (l l' : List Int), l.length = l'.length →
+    countDiff l l' = ((List.range l.length).filter (fun j => l.getD j 0 != l'.getD j 0)).length := by
+  intro l
+  induction l with
+  | nil => intro l' _; cases l' <;> simp [countDiff]
+  | cons x xs ih =>
+    intro l' hl
+    cases l' with
+    | nil => simp at hl
+    | cons y ys =>
+      simp only [countDiff, List.length_cons]
+      rw [ih ys (by simpa using hl), List.range_succ_eq_map, List.filter_cons, List.filter_map]
+      have e : ((fun j => (x :: xs).getD j 0 != (y :: ys).getD j 0) ∘ Nat.succ) =
+          (fun j => xs.getD j 0 != ys.getD j 0) := by
+        funext j; simp [Function.comp]
+      rw [e]
+      simp only [List.getD_cons_zero]
+      by_cases hxy : x = y
+      · simp [hxy]
+      · simp [hxy]; omega
+
+theorem countDiff_zero : ∀ (l l' : List Int), l.length = l'.length → countDiff l l' = 0 → l = l' := by
+  intro l
+  induction l with
+  | nil => intro l' h _; cases l' with | nil => rfl | cons _ _ => simp at h
+  | cons x xs ih =>
+    intro l' hl h0
+    cases l' with
+    | nil => simp at hl
+    | cons y ys =>
+      simp only [countDiff] at h0
+      have hxy : x = y := by
+        apply Classical.byContradiction
+        intro hne; simp [hne] at h0
+      have h2 : countDiff xs ys = 0 := by omega
+      rw [hxy, ih ys (by simpa using hl) h2]
+
+theorem sum_zero_mem (l : List Nat) (h : l.sum = 0) : ∀ x ∈ l, x = 0 := by
+  induction l with
+  | nil => intro x hx; simp at hx
+  | cons y ys ih =>
+    intro x hx
+    simp only [List.sum_cons] at h
+    rcases List.mem_cons.mp hx with rfl | hx
+    · omega
+    · exact ih (by omega) x hx
 
 end Vita.C17
